@@ -156,18 +156,37 @@ void tokenizer_free(TOKEN_SCANNER scanner)
 YY_BUFFER_STATE tokenizer_buf(TOKEN_SCANNER scanner)
 {
   char str[1024];
+  char * acc = 0;
+  size_t len = 0;
+  YY_BUFFER_STATE buf = 0;
   /* check the reader exists */
-  if (scanner->reader != 0)
+  if (scanner->reader == 0)
+    return 0;
+  /* a scanner restarted on a new buffer cannot resume a lexeme: so deliver
+   * whole lines, whatever the fragments returned by the reader, and however
+   * long the line is */
+  for (;;)
   {
     int n = 0;
+    char * tmp;
     scanner->reader(scanner->handle, str, &n, 1023);
-    if (n > 0)
-    {
-      str[n] = '\0';
-      return yy_scan_string(str, scanner->scanner);
-    }
+    if (n <= 0)
+      break;
+    tmp = (char*) realloc(acc, len + n + 1);
+    if (tmp == 0)
+      break;
+    acc = tmp;
+    memcpy(acc + len, str, n);
+    len += n;
+    acc[len] = '\0';
+    if (acc[len - 1] == '\n')
+      break;
   }
-  return 0;
+  if (len > 0)
+    buf = yy_scan_string(acc, scanner->scanner);
+  if (acc)
+    free(acc);
+  return buf;
 }
 
 void tokenizer_scan(TOKEN_SCANNER scanner, TOKEN_CALLBACK callback)
